@@ -4,6 +4,10 @@
 package measure
 
 import (
+	"github.com/apache/skywalking-banyandb/pkg/bytes"
+	"github.com/apache/skywalking-banyandb/pkg/encoding"
+	pbv1 "github.com/apache/skywalking-banyandb/pkg/pb/v1"
+
 	databasev1 "github.com/apache/skywalking-banyandb/api/proto/banyandb/database/v1"
 	modelv1 "github.com/apache/skywalking-banyandb/api/proto/banyandb/model/v1"
 )
@@ -25,4 +29,24 @@ func VerifC11TagRoundTrip(tagType databasev1.TagType, tv *modelv1.TagValue) ([]b
 		in = append([]byte{}, raw...)
 	}
 	return raw, mustDecodeTagValue(vt, in)
+}
+
+// VerifC11ColumnRoundTrip runs the measure column (field / tag family column) value codec:
+// encodeInt64Column / encodeFloat64Column / encodeDefault as selected by mustWriteTo, then
+// decodeColumnValues as used by mustReadValues, on a fresh column and a zero-value decoder.
+func VerifC11ColumnRoundTrip(vt pbv1.ValueType, values [][]byte) ([]byte, [][]byte) {
+	c := &column{name: "f", valueType: vt, values: values}
+	bb := &bytes.Buffer{}
+	switch vt {
+	case pbv1.ValueTypeInt64:
+		c.encodeInt64Column(bb)
+	case pbv1.ValueTypeFloat64:
+		c.encodeFloat64Column(bb)
+	default:
+		c.encodeDefault(bb)
+	}
+	enc := append([]byte{}, bb.Buf...)
+	d := &column{name: "f", valueType: vt}
+	d.decodeColumnValues(&encoding.BytesBlockDecoder{}, "verif", uint64(len(values)), &bytes.Buffer{Buf: append([]byte{}, enc...)})
+	return enc, d.values
 }
